@@ -127,8 +127,22 @@ func libChain(seedStr string, M int) (es []wallet.Entry, st []string) {
 	return es, st
 }
 
+// btcCoin: the coin type of the bip44 / xpub wallets of the current case.  It is decided by the low bit of the
+// case's seed (so the op lines and the driver need no extra field): odd first byte = a Bitcoin-coin wallet, whose
+// addresses come from the Bitcoin address decoder and whose bip44 path uses coin 0.  Positions, batches and the
+// bip44-vs-xpub agreement must be the same for both coin types (seeded change C17-h: xpub ScanAddresses built
+// Skycoin addresses in a Bitcoin wallet).
+func btcCoin(typ string, seed []byte) bool {
+	return (typ == "bip44" || typ == "xpub") && len(seed) > 0 && seed[0]&1 == 1
+}
+
 func fresh(typ string, seed []byte, n int) wallet.Wallet {
 	opts := []wallet.Option{wallet.OptionGenerateN(uint64(n)), wallet.OptionCryptoType(crypto.CryptoTypeSha256Xor)}
+	bipCoin := bip44.CoinTypeSkycoin
+	if btcCoin(typ, seed) {
+		opts = append(opts, wallet.OptionCoinType(wallet.CoinTypeBitcoin))
+		bipCoin = bip44.CoinTypeBitcoin
+	}
 	var w wallet.Wallet
 	var err error
 	switch typ {
@@ -139,7 +153,7 @@ func fresh(typ string, seed []byte, n int) wallet.Wallet {
 	case "xpub":
 		s, e := bip39.NewSeed(mnemonic(seed), "")
 		must(e)
-		c, e := bip44.NewCoin(s, bip44.CoinTypeSkycoin)
+		c, e := bip44.NewCoin(s, bipCoin)
 		must(e)
 		acct, e := c.Account(0)
 		must(e)
@@ -461,6 +475,10 @@ func c17Exec(op string) string {
 			}
 			if err != nil {
 				return fmt.Sprintf("bad %d", i)
+			}
+			// ... and it must be the address the WALLET'S coin type gives that public key
+			if wallet.ResolveAddressDecoder(cur.w.Coin()).AddressFromPubKey(e.Public).String() != e.Address.String() {
+				return fmt.Sprintf("bad-coin-addr %d", i)
 			}
 			// the entry must be the entry the unencrypted single-batch wallet of the same seed holds
 			if cur.typ != "collection" {
